@@ -473,8 +473,12 @@ pub fn apply_lib(l: &mut Locale, op: &Op) -> Ret {
             l.extensions.private.clear_tags();
             Ret::Unit
         }
+        #[cfg(feature = "likely")]
         Op::Maximize => Ret::Changed(l.id.maximize()),
+        #[cfg(feature = "likely")]
         Op::Minimize => Ret::Changed(l.id.minimize()),
+        #[cfg(not(feature = "likely"))]
+        Op::Maximize | Op::Minimize => Ret::Changed(false),
         Op::QKeyword(k) => match l.extensions.unicode.keyword(k) {
             Ok(it) => Ret::List(it.map(String::from).collect()),
             Err(_) => Ret::Err,
